@@ -16,6 +16,7 @@ func init() {
 		Explain: "Decides writer/reader agreement of the snapshot file, not a replay of a history: every line format written (append path and compaction) selects, under the reader's first-match prefix chain, the branch of the same record kind; verbs agree with parses (%d of a 64-bit unsigned ↔ ParseUint base 10/64 bits; two %s ↔ split at the LAST separator with key before / value after); the state field a record restores is the field whose change caused it to be written; every state field replay restores is serialised by compaction with the same formats (so compacted and uncompacted files replay equal); in-memory state is updated before the append (a compaction inside the append contains the event); Create witnesses the three restored clocks into the matching clocks and rejoins AliveNodes(). Line discipline: every %s argument must be newline-free by construction — the member name is not (known finding). Value equality of what is replayed and 'snapshot keeps up' are not decided.",
 		Run:     runC10,
 		Mutants: []Mutant{
+			{Name: "compact-temp-appended", File: "serf/snapshot.go", Func: "func (s *Snapshotter) compact(", Old: "os.O_RDWR|os.O_TRUNC|os.O_CREATE", New: "os.O_RDWR|os.O_APPEND|os.O_CREATE", Expect: "R7"},
 			{Name: "known-member-not-rerecorded", File: "serf/snapshot.go", Func: "func (s *Snapshotter) processMemberEvent(", Old: "\t\t\ts.aliveNodes[mem.Name] = addr.String()\n", New: "\t\t\tif _, known := s.aliveNodes[mem.Name]; known {\n\t\t\t\ts.aliveNodes[mem.Name] = addr.String()\n\t\t\t\tcontinue\n\t\t\t}\n\t\t\ts.aliveNodes[mem.Name] = addr.String()\n", Expect: "R6"},
 			{Name: "writer-renames-record", File: "serf/snapshot.go", Func: "func (s *Snapshotter) processQuery(", Old: "\"query-clock: %d\\n\"", New: "\"queryclock: %d\\n\"", Expect: "R1"},
 			{Name: "reader-shadowed-by-earlier-prefix", File: "serf/snapshot.go", Func: "func (s *Snapshotter) replay(", Old: "strings.CutPrefix(line, \"clock: \")", New: "strings.CutPrefix(line, \"\")", Expect: "R1"},
@@ -479,6 +480,14 @@ func runC10(c *an.Ctx) {
 	// ---- R6 a recorder writes its line whenever the event is of its kind (and, for clocks, newer): nothing
 	// else — in particular not what the in-memory state already holds — may suppress the record, or the
 	// file falls behind memory until the next compaction
+	c.Rule("R8 (shared with C11) replay reads every line of the file: nothing a line says ends the replay early")
+	replayEveryLine(c, "R8")
+	c.Rule("R7 (shared with C11) the compaction's temporary file is opened truncated and the live file append-only: a compacted image contains the current state only, never the tail or head of an earlier interrupted compaction")
+	nO := 0
+	for _, fn := range snapFuncs(c) {
+		nO += snapshotOpenFlags(c, fn, "R7", "R7")
+	}
+	c.Floor("R7", "os.OpenFile calls of the snapshotter", nO, 3)
 	c.Rule("R6 each recorder appends its line under no other condition than the event's type, the member loop and (for clocks) 'newer than recorded'")
 	nRec := 0
 	for _, w := range writes {
@@ -492,6 +501,7 @@ func runC10(c *an.Ctx) {
 			switch {
 			case f.L == "$1.Type" && strings.HasPrefix(f.R, "c:"):
 			case strings.HasPrefix(f.L, "(phi:rangeindex@") || strings.HasPrefix(f.L, "phi:rangeindex@"):
+			case strings.HasPrefix(f.L, "phi@") && f.Op == "<" && f.R == "len($1.Members)": // the indexed form of the member loop
 			case (f.L == "$1.LTime" || strings.HasPrefix(f.L, "((*LamportClock).Time($0.clock)")) && (f.Op == ">" || f.Op == ">=") && strings.HasPrefix(f.R, "$0.last"):
 			default:
 				extra += f.String() + "; "
